@@ -5,6 +5,7 @@ labmc/sched.py: every schedule of small multi-thread harnesses up to a
 preemption bound, at bytecode / line granularity inside the functions that
 touch shared state.
 """
+import sys
 import threading
 
 from ..sched import Scheduler, explore
@@ -16,14 +17,16 @@ RULE = (
     "harnesses H1 own runtimes, H2 shared runtime object (one thread nested in its own outer runtime), H3 inherit() "
     "racing with the parent's enter/exit, H4 concurrent register (2 writers + 1 reader; also 3 writers), H5 two "
     "evaluations of one cached dataset (different / equal dictionaries), H6 late default registration vs. a new "
-    "thread's first request, and a sequential three-generation inherit scenario (parent finished, unrelated threads in between); all schedules with at most B preemptions: quick B=2 at line granularity and B=1 at "
+    "thread's first request, H7 two evaluations of one cached dataset whose backend misbehaves (all 64 scripts over {behave, miss, "
+    "lie-exists, forget} for the first 3 backend calls; B=1 at line granularity in the quick tier), and sequential scenarios (three-generation inherit with the parent "
+    "finished and unrelated threads in between; a long-lived pool worker that calls inherit() once per task); all schedules with at most B preemptions: quick B=2 at line granularity and B=1 at "
     "bytecode granularity, thorough B=3 line / B=2 bytecode.  An execution is non-trivial when it contains at least "
     "one preemption; distinct_nontrivial counts distinct preempting schedules."
 )
 ASSUMPTIONS = [
     "CPython with the GIL: thread switches happen between bytecodes; C-level dict operations are atomic",
     "scheduling points: every bytecode (or line) of every function defined in labrea/runtime.py (runtime harnesses), labrea/overload.py (register harnesses) or labrea/cache.py (cached-evaluation harnesses); lock acquisitions; elsewhere threads run atomically",
-    "labrea.runtime.lock and Overloaded._lock are replaced from the harness by scheduler-aware locks (a thread waiting on a held lock is disabled)",
+    "labrea.runtime.lock, Overloaded._lock and every Lock / RLock / Event / Condition that a labrea module holds in a module-level name or creates while a harness runs are replaced from the harness by scheduler-aware ones (a waiting thread is disabled; a timeout expires only when nothing else can run)",
 ]
 CHUNK = 1
 
@@ -55,6 +58,12 @@ class _ThreadingProxy:
 
     RLock = Lock
 
+    def Event(self):
+        return self._sched.event("library-created event")
+
+    def Condition(self, lock=None):
+        return self._sched.condition(lock, "library-created condition")
+
     def __getattr__(self, name):
         return getattr(self._real, name)
 
@@ -81,6 +90,36 @@ class Env:
             if hasattr(m, "threading"):
                 self.saved_threading[m] = m.threading
                 m.threading = _ThreadingProxy(sched, m.threading, point=(group == grp))
+        # synchronisation primitives (and their factories) bound to module-level names of any labrea
+        # module: a real one would block the thread that holds the baton
+        self.saved_globals = []
+        real_lock_types = (type(threading.Lock()), type(threading.RLock()))
+        proxy = _ThreadingProxy(sched, threading, point=False)
+        factories = {threading.Lock: proxy.Lock, threading.RLock: proxy.RLock, threading.Event: proxy.Event,
+                     threading.Condition: proxy.Condition}
+        for mname, m in list(sys.modules.items()):
+            if not (mname == "labrea" or mname.startswith("labrea.")) or m is None:
+                continue
+            for gname, val in list(vars(m).items()):
+                if gname in ("lock", "_MODULE_LOCK") and m in (rt, lo):
+                    continue  # handled above
+                new = None
+                if isinstance(val, real_lock_types):
+                    new = sched.lock(f"{mname}.{gname}", point=False)
+                elif isinstance(val, threading.Event):
+                    new = sched.event(f"{mname}.{gname}")
+                elif isinstance(val, threading.Condition):
+                    new = sched.condition(None, f"{mname}.{gname}")
+                elif val is threading and gname != "threading":
+                    new = proxy
+                else:
+                    try:
+                        new = factories.get(val)
+                    except TypeError:
+                        new = None
+                if new is not None:
+                    self.saved_globals.append((m, gname, val))
+                    setattr(m, gname, new)
         self.saved_locks = dict(lo._LOCKS)
         lo._LOCKS.clear()
 
@@ -117,6 +156,8 @@ class Env:
         lo._MODULE_LOCK = self.saved_modlock
         for m, real in self.saved_threading.items():
             m.threading = real
+        for m, gname, val in self.saved_globals:
+            setattr(m, gname, val)
         lo._LOCKS.clear()
         lo._LOCKS.update(self.saved_locks)
         for t in self.sched.threads:
@@ -329,6 +370,46 @@ def h5(env, same=False):
     return verdict
 
 
+def h7(env, script):
+    """two threads evaluate one cached dataset (same dictionary) whose backend misbehaves per script"""
+    from labrea import Option, dataset
+
+    from .c17 import make_backend
+
+    counter = {"calls": 0, "faults": 0, "trace": []}
+    backend = make_backend(script, "own-exists", counter)
+
+    def body(x=Option("X")):
+        return ("body", x)
+
+    d = dataset(body, cache=backend)
+    res = {}
+
+    def ev(i):
+        try:
+            res[i] = d.evaluate({"X": 1})
+        except Exception as e:  # noqa  an observation
+            res[i] = f"{type(e).__name__}: {e}"[:120]
+
+    for i in (0, 1):
+        env.sched.spawn(lambda i=i: ev(i))
+
+    def verdict():
+        out = []
+        for i in (0, 1):
+            if res.get(i) != ("body", 1):
+                out.append(f"thread {i} got {res.get(i)!r} from a backend following script {script}")
+        try:
+            v = d.evaluate({"X": 1})
+        except Exception as e:  # noqa
+            v = f"{type(e).__name__}"
+        if v != ("body", 1):
+            out.append(f"after the threads finished the dataset evaluates to {v!r}")
+        return out
+
+    return verdict
+
+
 def h6(env):
     """late default registration racing with the first request of a new thread"""
     rt = env.rt
@@ -362,6 +443,9 @@ HARNESSES = {
     "H5-cached-equal": (lambda env: h5(env, True), "cache"),
     "H6-late-default": (h6, "runtime"),
 }
+# H7: every script over {behave, miss, lie-exists, forget} for the first 3 backend calls
+for _s in ("".join(x) for x in __import__("itertools").product("BMLF", repeat=3)):
+    HARNESSES["H7-flaky-backend-" + _s] = ((lambda env, _s=_s: h7(env, _s)), "cache")
 
 
 def run_once(hname, gran, prefix):
@@ -415,6 +499,10 @@ def cases(tier, seed):
     _warm()
     for hname in HARNESSES:
         for gran, bound in _plan(tier):
+            if hname.startswith("H7-"):
+                if gran == "opcode" and tier == "quick":
+                    continue
+                bound = 1 if tier == "quick" else min(bound, 2 if gran == "line" else 1)
             if gran == "opcode" and hname == "H4-register-2w":
                 bound = max(bound, 2)  # the shortest harness: two preemptions at bytecode level on every run
             # root execution gives the first-level alternatives; each is a complete sub-tree
@@ -484,6 +572,44 @@ def sequential_scenarios():
     want = {"coordinator": "outer", "w1": "outer", "unrelated": "default", "w2": "outer", "w3": "outer"}
     if seen != want:
         fails.append(f"inherit from a finished parent: observed {seen}, expected {want}")
+
+    # a long-lived worker (a pool thread) that calls inherit() once per task: every call gives it the
+    # handlers its parent has at that moment, whatever the worker had before
+    import queue
+
+    tasks, done = queue.Queue(), queue.Queue()
+
+    def pool_worker():
+        got = [T().run()]  # the worker already has a runtime of its own before it ever inherits
+        while True:
+            parent = tasks.get()
+            if parent is None:
+                break
+            rt.inherit(parent)
+            done.put(T().run())
+        seen["pool-first"] = got[0]
+
+    pw = threading.Thread(target=pool_worker)
+    threads.append(pw)
+    pw.start()
+    served = []
+
+    def pool_parent():
+        me = threading.current_thread()
+        with rt.current_runtime().handle(T, tag("task1")):
+            tasks.put(me)
+            served.append(done.get(timeout=10))
+        with rt.current_runtime().handle(T, tag("task2")):
+            tasks.put(me)
+            served.append(done.get(timeout=10))
+        tasks.put(me)
+        served.append(done.get(timeout=10))
+        tasks.put(None)
+
+    run(pool_parent)
+    pw.join(10)
+    if served != ["task1", "task2", "default"] or seen.get("pool-first") != "default":
+        fails.append(f"a reused worker calling inherit() per task was served {served} (first request {seen.get('pool-first')!r}), expected ['task1', 'task2', 'default'] ('default')")
     with rt.lock:
         for th in threads:
             rt._RUNTIMES.pop(th, None)
